@@ -1256,6 +1256,9 @@ pub type ArcBody = Arc<dyn Fn() + Send + Sync + 'static>;
 /// the execution can be repeated forever: a fair cycle in which the mutator never returns.
 pub struct Chain {
     readers: usize,
+    writers: usize,
+    widx: usize,
+    spun_in_turn: bool,
     phase: u8,
     turn: usize,
     hints_in_turn: usize,
@@ -1267,8 +1270,16 @@ pub struct Chain {
 
 impl Chain {
     pub fn new(readers: usize) -> Self {
+        Self::with_writers(readers, 1)
+    }
+    /// Writers are the threads `readers .. readers + writers`; each runs one barrier iteration per
+    /// turn (a writer blocked on the writers' mutex is skipped).
+    pub fn with_writers(readers: usize, writers: usize) -> Self {
         Chain {
             readers,
+            writers,
+            widx: 0,
+            spun_in_turn: false,
             phase: 0,
             turn: 0,
             hints_in_turn: 0,
@@ -1284,13 +1295,53 @@ impl Chain {
     fn pick(view: &View, t: usize) -> Option<usize> {
         view.choices.iter().position(|c| *c == Choice::Step(t))
     }
+    fn end_of_turn(&mut self, view: &View) {
+        if self.spun_in_turn {
+            // every spinning writer did one barrier iteration: take a signature
+            let mut vals: std::collections::BTreeMap<usize, u64> = Default::default();
+            let mut zero = false;
+            for (k, ev) in view.log.iter().enumerate() {
+                if ev.kind != Kind::Event && ev.loc != 0 {
+                    vals.insert(ev.loc, ev.new);
+                }
+                if k >= self.last_sig_at && ev.thr >= self.readers && ev.kind == Kind::Load && ev.old == 0 {
+                    zero = true;
+                }
+            }
+            // addresses are stable within a run; pointers (data) change per store
+            let pos: Vec<String> = view
+                .pending
+                .iter()
+                .map(|p| p.map(|o| format!("{:?}@{:x}", o.kind, o.loc)).unwrap_or_default())
+                .collect();
+            let sig = format!("{:?}|{:?}|{}", vals, pos, self.turn % self.readers);
+            self.last_sig_at = view.log.len();
+            self.sigs.push((sig, zero));
+            let n = self.sigs.len();
+            let period = self.readers;
+            if n >= 3 * period + 1 {
+                let same = (1..=2 * period).all(|k| self.sigs[n - k].0 == self.sigs[n - k - period].0);
+                let nozero = (1..=2 * period).all(|k| !self.sigs[n - k].1);
+                if same && nozero {
+                    self.verdict = Some(format!(
+                        "the writer(s) spun through {} barrier iterations; the last {} turns repeat with period {} while no writer ever loaded a zero counter and every reader kept completing finite sections",
+                        self.writer_hints, 2 * period, period
+                    ));
+                }
+            }
+        }
+        self.turn += 1;
+        self.phase = 0;
+        self.widx = 0;
+        self.hints_in_turn = 0;
+        self.spun_in_turn = false;
+    }
 }
 
 impl Strategy for Chain {
     fn choose(&mut self, view: &View) -> usize {
-        let w = self.readers;
-        // phases: 0 = let reader `turn` enter; 1 = let the other reader(s) leave; 2 = writer
-        for _ in 0..6 {
+        // phases: 0 = let reader `turn` enter; 1 = let the other reader(s) leave; 2 = writers
+        for _ in 0..(8 + 2 * self.writers) {
             match self.phase {
                 0 => {
                     let a = self.turn % self.readers;
@@ -1311,8 +1362,18 @@ impl Strategy for Chain {
                     }
                     self.phase = 2;
                     self.hints_in_turn = 0;
+                    self.widx = 0;
                 }
                 _ => {
+                    if self.widx >= self.writers {
+                        let all_done = (0..self.writers).all(|k| view.pending[self.readers + k].is_none());
+                        self.end_of_turn(view);
+                        if all_done {
+                            return 0;
+                        }
+                        continue;
+                    }
+                    let w = self.readers + self.widx;
                     let at_hint = view.pending[w]
                         .map(|o| matches!(o.kind, Kind::Spin | Kind::Yield))
                         .unwrap_or(false);
@@ -1320,55 +1381,22 @@ impl Strategy for Chain {
                     // (after a hint the scheduler does not offer the spinning thread again until
                     // somebody else has stepped)
                     if self.hints_in_turn >= 1 && (at_hint || can.is_none()) {
-                        // one barrier iteration done: take a signature, then next turn
-                        let mut vals: std::collections::BTreeMap<usize, u64> = Default::default();
-                        let mut zero = false;
-                        for (k, ev) in view.log.iter().enumerate() {
-                            if ev.kind != Kind::Event && ev.loc != 0 {
-                                vals.insert(ev.loc, ev.new);
-                            }
-                            if k >= self.last_sig_at && ev.thr == w && ev.kind == Kind::Load && ev.old == 0 {
-                                zero = true;
-                            }
-                        }
-                        // addresses are stable within a run; pointers (data) change per store
-                        let pos: Vec<String> = view
-                            .pending
-                            .iter()
-                            .map(|p| p.map(|o| format!("{:?}@{:x}", o.kind, o.loc)).unwrap_or_default())
-                            .collect();
-                        let sig = format!("{:?}|{:?}|{}", vals, pos, self.turn % self.readers);
-                        self.last_sig_at = view.log.len();
-                        self.sigs.push((sig, zero));
-                        let n = self.sigs.len();
-                        let period = self.readers;
-                        if n >= 3 * period + 1 {
-                            let same = (1..=2 * period).all(|k| self.sigs[n - k].0 == self.sigs[n - k - period].0);
-                            let nozero = (1..=2 * period).all(|k| !self.sigs[n - k].1);
-                            if same && nozero {
-                                self.verdict = Some(format!(
-                                    "the writer spun through {} barrier iterations; the last {} repeat with period {} while it never loaded a zero counter and every reader kept completing finite sections",
-                                    self.writer_hints, 2 * period, period
-                                ));
-                            }
-                        }
-                        self.turn += 1;
-                        self.phase = 0;
+                        // one barrier iteration of this writer done
+                        self.widx += 1;
+                        self.hints_in_turn = 0;
                         continue;
                     }
-                    if let Some(i) = Self::pick(view, w) {
+                    if let Some(i) = can {
                         if at_hint {
                             self.hints_in_turn += 1;
                             self.writer_hints += 1;
+                            self.spun_in_turn = true;
                         }
                         return i;
                     }
-                    // writer done or blocked: keep the readers going
-                    self.turn += 1;
-                    self.phase = 0;
-                    if view.pending[w].is_none() {
-                        return 0;
-                    }
+                    // this writer is done or blocked (mutex): next one
+                    self.widx += 1;
+                    self.hints_in_turn = 0;
                 }
             }
         }
